@@ -413,6 +413,15 @@ class Catalogue:
                 names.append(nm)
                 if kind == 'enum':
                     rest = it[mm.end():].strip()
+                    md = re.search(r'=\s*([^,]+)$', rest) if not rest.startswith(('{',)) else None
+                    if rest.startswith('('):
+                        md = re.search(r'\)\s*=\s*([^,]+)$', rest)
+                    if md:
+                        ex = md.group(1).strip()
+                        try:
+                            vf.setdefault('#discr', {})[nm] = int(ex, 0)
+                        except ValueError:
+                            vf.setdefault('#discr', {})[nm] = None      # non-literal discriminant expression
                     if rest.startswith('{'):
                         inner = rest[1:rest.rfind('}')]
                         fl = []
@@ -473,6 +482,25 @@ class Catalogue:
     def variants(self, enum_name, hint=None, crate=None):
         x = self._pick(self.enums, enum_name, hint, crate)
         return x[1] if x else None
+
+    def discr_values(self, enum_name, hint=None, crate=None):
+        """{variant: discriminant value} honouring explicit `Variant = N` (implicit ones continue from the previous value);
+        None if some discriminant is not a literal."""
+        x = self._pick(self.enums, enum_name, hint, crate)
+        if not x:
+            return None
+        ex = x[2].get('#discr', {})
+        out = {}
+        cur = -1
+        for v in x[1]:
+            if v in ex:
+                if ex[v] is None:
+                    return None
+                cur = ex[v]
+            else:
+                cur += 1
+            out[v] = cur
+        return out
 
     def variant_fields(self, enum_name, variant, hint=None, crate=None):
         x = self._pick(self.enums, enum_name, hint, crate)
